@@ -120,3 +120,16 @@ pub fn corpus() -> Vec<(String, String)> {
     files.into_iter().filter_map(|f| std::fs::read_to_string(&f).ok().map(|s| (f.file_name().unwrap().to_string_lossy().to_string(), s))).collect()
 }
 
+
+#[path = "../shared/e2e_corpus.rs"]
+mod e2e_corpus;
+/// The Sierra programs of the repository's e2e test files (thorough tier corpora).
+pub fn e2e_corpus() -> Vec<(String, String)> { e2e_corpus::e2e_programs(env!("CARGO_MANIFEST_DIR")) }
+/// A fixed pseudo-random sample of `k` mutants of `p` (all of them when there are fewer).
+pub fn sample_mutants(p: &Program, k: usize, seed: &mut u64) -> Vec<(String, Program)> {
+    let n = count_mutants(p);
+    if n <= k { return mutants(p); }
+    let mut pick = std::collections::HashSet::new();
+    while pick.len() < k { *seed = seed.wrapping_mul(6364136223846793005).wrapping_add(1442695040888963407); pick.insert((*seed >> 33) as usize % n); }
+    mutants_at(p, &|i| pick.contains(&i))
+}
